@@ -378,3 +378,417 @@ Proof.
   { dfilter H. inversion H; subst. destruct k; cbn in *; [left; congruence|eapply IH; eassumption]. }
   dfilter H. inversion H; subst. destruct k; cbn in *; [right; exact Hk|eapply IH; eassumption].
 Qed.
+
+(* ------------------------------------------------------------------ *)
+(* frame: what the message-sending / progress-updating helpers leave alone *)
+
+(* the entries of the log (stable and unstable) and the applied index *)
+Definition same_ents (l l' : raft_log) : Prop :=
+  unst l' = unst l /\ store l' = store l /\ applied l' = applied l.
+
+Definition fr (r r' : raft) : Prop :=
+  r_state r' = r_state r /\
+  r_pending_conf_index r' = r_pending_conf_index r /\
+  same_ents (r_log r) (r_log r') /\
+  conf_of r' = conf_of r /\
+  r_id r' = r_id r /\
+  r_promotable r' = r_promotable r /\
+  r_term r' = r_term r.
+
+Lemma same_ents_refl l : same_ents l l.
+Proof. repeat split. Qed.
+
+Lemma same_ents_trans a b c : same_ents a b -> same_ents b c -> same_ents a c.
+Proof. unfold same_ents. intuition congruence. Qed.
+
+Lemma fr_refl r : fr r r.
+Proof. repeat split. Qed.
+
+Lemma fr_trans a b c : fr a b -> fr b c -> fr a c.
+Proof. unfold fr, same_ents. intuition congruence. Qed.
+
+Ltac fr_solve := unfold fr, same_ents; cbn; repeat split; try reflexivity; try congruence.
+
+Lemma last_index_same_ents l l' : same_ents l l' -> last_index l' = last_index l.
+Proof. intros (A & B & _). unfold last_index. rewrite A, B. reflexivity. Qed.
+
+Lemma fr_last_index r r' : fr r r' -> last_index (r_log r') = last_index (r_log r).
+Proof. intros (_ & _ & H & _). apply last_index_same_ents; exact H. Qed.
+
+Lemma fr_applied r r' : fr r r' -> applied (r_log r') = applied (r_log r).
+Proof. intros (_ & _ & (_ & _ & H) & _). exact H. Qed.
+
+Lemma fr_is_leader r r' : fr r r' -> is_leader r' = is_leader r.
+Proof. intros (H & _). unfold is_leader. rewrite H. reflexivity. Qed.
+
+Lemma fr_has_pending r r' : fr r r' -> has_pending_conf r' = has_pending_conf r.
+Proof.
+  intros H. unfold has_pending_conf. rewrite (fr_applied _ _ H).
+  destruct H as (_ & -> & _). reflexivity.
+Qed.
+
+Lemma send_fr r m r' : send r m = Ok r' -> fr r r'.
+Proof. unfold send. intros H. inv_bind H. inversion H; subst. fr_solve. Qed.
+
+Lemma put_pr_fr r id p : fr r (put_pr r id p).
+Proof. fr_solve. Qed.
+
+Lemma set_msgs_fr r ms : fr r (r <| r_msgs := ms |>).
+Proof. fr_solve. Qed.
+
+Lemma maybe_send_append_fr r to pr ae r' pr' b :
+  maybe_send_append r to pr ae = Ok (r', pr', b) -> fr r r'.
+Proof.
+  unfold maybe_send_append. intros H.
+  destruct (is_paused pr). { inversion H; subst. apply fr_refl. }
+  (* the snapshot branch, used twice *)
+  assert (Hsnap : forall m,
+    (x <- prepare_send_snapshot r m pr to ;;
+     match x with
+     | None => Ok (r, pr, false)
+     | Some (m', pr'0) => r'0 <- send r m' ;; Ok (r'0, pr'0, true)
+     end) = Ok (r', pr', b) -> fr r r').
+  { intros m Hs. inv_bind Hs. destruct x as [[m' p']|].
+    - inv_bind Hs. inversion Hs; subst. eapply send_fr; eassumption.
+    - inversion Hs; subst. apply fr_refl. }
+  destruct (negb (pending_request_snapshot pr =? INVALID_INDEX)). { eapply Hsnap; exact H. }
+  inv_bind H.
+  match type of H with (if ?c then _ else _) = _ => destruct c end.
+  { inversion H; subst. apply fr_refl. }
+  destruct (next_idx pr =? 0); [discriminate|].
+  inv_bind H.
+  destruct x0 as [t|e1]; destruct x as [ents|e2].
+  - inv_bind H. destruct x as [[msgs' pr1] batched].
+    destruct batched. { inversion H; subst. apply set_msgs_fr. }
+    inv_bind H. destruct x as [m' pr2]. inv_bind H. inversion H; subst.
+    eapply send_fr; eassumption.
+  - destruct e2; try (eapply Hsnap; exact H). inversion H; subst. apply fr_refl.
+  - eapply Hsnap; exact H.
+  - destruct e2; try (eapply Hsnap; exact H). inversion H; subst. apply fr_refl.
+Qed.
+
+Lemma send_append_to_fr r to r' : send_append_to r to = Ok r' -> fr r r'.
+Proof.
+  unfold send_append_to. intros H. destruct (get_pr r to); [|discriminate].
+  inv_bind H. destruct x as [[r1 pr1] b]. inversion H; subst.
+  eapply fr_trans; [eapply maybe_send_append_fr; eassumption|apply put_pr_fr].
+Qed.
+
+Lemma send_append_aggressively_loop_fr fuel : forall r to pr r' pr',
+  send_append_aggressively_loop fuel r to pr = Ok (r', pr') -> fr r r'.
+Proof.
+  induction fuel as [|f IH]; intros r to pr r' pr' H; [discriminate|].
+  cbn [send_append_aggressively_loop] in H. inv_bind H. destruct x as [[r1 pr1] b].
+  apply maybe_send_append_fr in Hx.
+  destruct b.
+  - eapply fr_trans; [exact Hx|eapply IH; eassumption].
+  - inversion H; subst. exact Hx.
+Qed.
+
+Lemma send_append_aggressively_fr r to r' : send_append_aggressively r to = Ok r' -> fr r r'.
+Proof.
+  unfold send_append_aggressively. intros H. destruct (get_pr r to); [|discriminate].
+  inv_bind H. destruct x as [r1 pr1]. inversion H; subst.
+  eapply fr_trans; [eapply send_append_aggressively_loop_fr; eassumption|apply put_pr_fr].
+Qed.
+
+Lemma send_heartbeat_fr r to pr ctx r' : send_heartbeat r to pr ctx = Ok r' -> fr r r'.
+Proof. unfold send_heartbeat. apply send_fr. Qed.
+
+Lemma for_each_peer_fr (f : raft -> N -> Res raft) :
+  (forall r id r', f r id = Ok r' -> fr r r') ->
+  forall ids self r r', for_each_peer ids self f r = Ok r' -> fr r r'.
+Proof.
+  intros Hf. induction ids as [|id rest IH]; intros self r r' H.
+  { inversion H; subst. apply fr_refl. }
+  cbn [for_each_peer] in H. destruct (id =? self). { eapply IH; eassumption. }
+  inv_bind H. eapply fr_trans; [eapply Hf; eassumption|eapply IH; eassumption].
+Qed.
+
+Lemma bcast_append_fr r r' : bcast_append r = Ok r' -> fr r r'.
+Proof. unfold bcast_append. apply for_each_peer_fr. apply send_append_to_fr. Qed.
+
+Lemma bcast_heartbeat_with_ctx_fr r ctx r' : bcast_heartbeat_with_ctx r ctx = Ok r' -> fr r r'.
+Proof.
+  unfold bcast_heartbeat_with_ctx. apply for_each_peer_fr.
+  intros r0 id r0' H. destruct (get_pr r0 id); [|discriminate]. eapply send_heartbeat_fr; eassumption.
+Qed.
+
+Lemma bcast_heartbeat_fr r r' : bcast_heartbeat r = Ok r' -> fr r r'.
+Proof. unfold bcast_heartbeat. apply bcast_heartbeat_with_ctx_fr. Qed.
+
+Lemma log_commit_to_same_ents l tc l' : RaftLog.commit_to l tc = Ok l' -> same_ents l l'.
+Proof.
+  unfold RaftLog.commit_to. intros H. destruct (tc <=? committed l). { inversion H; apply same_ents_refl. }
+  destruct (last_index l <? tc); [discriminate|]. inversion H; subst. repeat split.
+Qed.
+
+Lemma log_maybe_commit_same_ents l mi t l' b :
+  RaftLog.maybe_commit l mi t = Ok (l', b) -> same_ents l l'.
+Proof.
+  unfold RaftLog.maybe_commit. intros H.
+  destruct (committed l <? mi); [|inversion H; apply same_ents_refl].
+  inv_bind H. destruct (term_ok_eq x t); [|inversion H; apply same_ents_refl].
+  inv_bind H. inversion H; subst. eapply log_commit_to_same_ents; eassumption.
+Qed.
+
+Lemma set_log_fr r l' : same_ents (r_log r) l' -> fr r (r <| r_log := l' |>).
+Proof. intros H. unfold fr. cbn. repeat split; try reflexivity; apply H. Qed.
+
+Lemma maybe_commit_fr r r' b : maybe_commit r = Ok (r', b) -> fr r r'.
+Proof.
+  unfold maybe_commit. intros H. inv_bind H. destruct x as [l' b'].
+  apply log_maybe_commit_same_ents in Hx.
+  destruct b'.
+  - destruct (get_pr r (r_id r)); [|discriminate]. inversion H; subst.
+    eapply fr_trans; [apply set_log_fr; exact Hx|apply put_pr_fr].
+  - inversion H; subst. apply set_log_fr; exact Hx.
+Qed.
+
+Lemma handle_ready_read_index_fr r req idx r' om :
+  handle_ready_read_index r req idx = Ok (r', om) -> fr r r'.
+Proof.
+  unfold handle_ready_read_index. intros H.
+  match type of H with (if ?c then _ else _) = _ => destruct c end.
+  - inv_bind H. inversion H; subst. fr_solve.
+  - inversion H; subst. apply fr_refl.
+Qed.
+
+Lemma respond_reads_fr rss : forall r r', respond_reads r rss = Ok r' -> fr r r'.
+Proof.
+  induction rss as [|rs rest IH]; intros r r' H.
+  { inversion H; subst. apply fr_refl. }
+  cbn [respond_reads] in H. inv_bind H. destruct x as [r1 om].
+  apply handle_ready_read_index_fr in Hx. inv_bind H.
+  eapply fr_trans; [exact Hx|]. eapply fr_trans; [|eapply IH; eassumption].
+  destruct om; [eapply send_fr; eassumption|inversion Hx0; subst; apply fr_refl].
+Qed.
+
+Lemma send_timeout_now_fr r to r' : send_timeout_now r to = Ok r' -> fr r r'.
+Proof. unfold send_timeout_now. apply send_fr. Qed.
+
+(* ------------------------------------------------------------------ *)
+(* 5/6. post_conf_change, apply_conf_change, restore: promotable = voter, and the new
+   configuration is the ConfChange model's result *)
+
+Lemma post_conf_change_spec r r' cs :
+  post_conf_change r = Ok (r', cs) ->
+  cs = to_conf_state (conf_of r) /\
+  fr (r <| r_promotable := voters_contains (conf_of r) (r_id r) |>) r'.
+Proof.
+  unfold post_conf_change. intros H.
+  set (r0 := r <| r_promotable := voters_contains (conf_of r) (r_id r) |>) in *.
+  match type of H with (if ?c then _ else _) = _ => destruct c end.
+  { inversion H; subst. split; [reflexivity|apply fr_refl]. }
+  match type of H with (if ?c then _ else _) = _ => destruct c end.
+  { inversion H; subst. split; [reflexivity|apply fr_refl]. }
+  inv_bind H. destruct x as [r1 b]. apply maybe_commit_fr in Hx.
+  inv_bind H. inv_bind H. inversion H; subst. split; [reflexivity|].
+  eapply fr_trans; [exact Hx|].
+  assert (H12 : fr r1 x).
+  { destruct b; [eapply bcast_append_fr; eassumption|].
+    revert Hx0. apply for_each_peer_fr. intros ra id ra' Hf.
+    destruct (get_pr ra id); [|discriminate]. inv_bind Hf. destruct x1 as [[rb pb] bb].
+    inversion Hf; subst. eapply fr_trans; [eapply maybe_send_append_fr; eassumption|apply put_pr_fr]. }
+  eapply fr_trans; [exact H12|].
+  assert (H23 : fr x x0).
+  { destruct (ro_last_pending_request_ctx (r_read_only x)); [|inversion Hx1; subst; apply fr_refl].
+    destruct (ro_recv_ack (r_read_only x) (r_id x) l) as [ro' acks].
+    destruct acks as [a|]; [|inversion Hx1; subst; fr_solve].
+    match type of Hx1 with (if ?c then _ else _) = _ => destruct c end;
+      [|inversion Hx1; subst; fr_solve].
+    inv_bind Hx1. destruct x1 as [ro2 rss]. apply respond_reads_fr in Hx1.
+    eapply fr_trans; [|exact Hx1]. fr_solve. }
+  eapply fr_trans; [exact H23|].
+  destruct (r_lead_transferee x0); [|apply fr_refl].
+  destruct (negb (voters_contains (conf_of x0) n)); [fr_solve|apply fr_refl].
+Qed.
+
+(* C09: after post_conf_change a node is promotable iff it is a voter of its configuration *)
+Theorem promotable_iff_voter r r' cs :
+  post_conf_change r = Ok (r', cs) ->
+  r_promotable r' = voters_contains (conf_of r') (r_id r') /\
+  conf_of r' = conf_of r /\ r_id r' = r_id r /\ cs = to_conf_state (conf_of r).
+Proof.
+  intros H. apply post_conf_change_spec in H. destruct H as (Hcs & Hf).
+  destruct Hf as (_ & _ & _ & Hc & Hi & Hp & _). cbn in Hc, Hi, Hp.
+  rewrite Hp, Hc, Hi. change (conf_of (r <| r_promotable := _ |>)) with (conf_of r) in *.
+  repeat split; assumption || reflexivity.
+Qed.
+
+(* the changer result computed by Raft::apply_conf_change *)
+Definition changer_result (r : raft) (cc : ccv2) : R (conf * changes) :=
+  let base := pids (t_progress (r_prs r)) in
+  if v2_leave_joint cc then ConfChange.leave_joint (conf_of r) base
+  else match v2_enter_joint cc with
+       | Some al => ConfChange.enter_joint al (conf_of r) base (v2_changes cc)
+       | None => ConfChange.simple (conf_of r) base (v2_changes cc)
+       end.
+
+Lemma changer_result_model r cc :
+  ConfChange.apply_conf_change (conf_of r, pids (t_progress (r_prs r))) cc =
+  ConfChange.commit (conf_of r, pids (t_progress (r_prs r))) (changer_result r cc).
+Proof.
+  unfold ConfChange.apply_conf_change, changer_result, do_leave_joint, do_enter_joint, do_simple.
+  cbn [fst snd]. destruct (v2_leave_joint cc); [reflexivity|].
+  destruct (v2_enter_joint cc); reflexivity.
+Qed.
+
+Lemma pids_pput m id p : pids (pput m id p) = IdSet.insert id (pids m).
+Proof.
+  induction m as [|[k q] t IH]; [reflexivity|]. cbn [pput pids map fst IdSet.insert] in *.
+  destruct (id <? k); [reflexivity|].
+  destruct (N.eqb_spec id k) as [->|]; [reflexivity|]. cbn [map fst]. f_equal. exact IH.
+Qed.
+
+Lemma pids_pdel m id : pids (pdel m id) = IdSet.remove id (pids m).
+Proof.
+  induction m as [|[k q] t IH]; [reflexivity|]. cbn [pdel pids map fst IdSet.remove] in *.
+  rewrite (N.eqb_sym id k). destruct (k =? id); [exact IH|]. cbn [map fst]. f_equal. exact IH.
+Qed.
+
+(* ProgressTracker::apply_conf on the progress map agrees with the key-set model *)
+Lemma pids_apply_changes chs : forall m ni mi,
+  pids (Raft.apply_changes m chs ni mi) = ConfChange.apply_conf (pids m) chs.
+Proof.
+  unfold ConfChange.apply_conf.
+  induction chs as [|[id ty] rest IH]; intros m ni mi; [reflexivity|].
+  cbn [Raft.apply_changes fold_left]. destruct ty; rewrite IH; unfold apply_change; cbn [fst snd].
+  - rewrite pids_pput. reflexivity.
+  - rewrite pids_pdel. reflexivity.
+Qed.
+
+(* C09: an erroneous change leaves the node untouched; a successful one installs exactly
+   the ConfChange model's configuration (a function of the previous configuration, the
+   tracked ids and the change), reports it, and recomputes promotable *)
+Theorem raft_apply_conf_change_spec r cc r' ocs :
+  raft_apply_conf_change r cc = Ok (r', ocs) ->
+  match ConfChange.apply_conf_change (conf_of r, pids (t_progress (r_prs r))) cc with
+  | RErr _ => r' = r /\ ocs = None
+  | ROk (c', ids') =>
+      conf_of r' = c' /\ ocs = Some (to_conf_state c') /\
+      r_id r' = r_id r /\ r_promotable r' = voters_contains c' (r_id r) /\
+      exists chs, changer_result r cc = ROk (c', chs) /\
+        ids' = pids (Raft.apply_changes (t_progress (r_prs r)) chs (last_index (r_log r))
+                                        (t_max_inflight (r_prs r)))
+  end.
+Proof.
+  intros H. rewrite changer_result_model. unfold raft_apply_conf_change in H.
+  fold (changer_result r cc) in H.
+  destruct (changer_result r cc) as [[c' chs]|e]; cbn [ConfChange.commit snd].
+  - inv_bind H. destruct x as [r1 cs1]. inversion H; subst.
+    apply promotable_iff_voter in Hx. destruct Hx as (Hp & Hc & Hi & Hcs).
+    cbn [fst snd]. change (conf_of (set_conf_prs r c' _)) with c' in *.
+    change (r_id (set_conf_prs r c' _)) with (r_id r) in *.
+    rewrite Hp, Hc, Hi, Hcs. repeat split; try reflexivity.
+    exists chs. split; [reflexivity|]. symmetry. apply pids_apply_changes.
+  - inversion H; subst. split; reflexivity.
+Qed.
+
+Theorem apply_conf_change_err_untouched r cc r' :
+  raft_apply_conf_change r cc = Ok (r', None) -> r' = r.
+Proof.
+  intros H. apply raft_apply_conf_change_spec in H.
+  destruct (ConfChange.apply_conf_change _ cc) as [[c' ids']|e].
+  - destruct H as (_ & H & _). discriminate.
+  - apply H.
+Qed.
+
+Theorem apply_conf_change_conf r cc r' cs :
+  raft_apply_conf_change r cc = Ok (r', Some cs) ->
+  exists ids',
+    ConfChange.apply_conf_change (conf_of r, pids (t_progress (r_prs r))) cc = ROk (conf_of r', ids') /\
+    cs = to_conf_state (conf_of r') /\
+    r_promotable r' = voters_contains (conf_of r') (r_id r') /\ r_id r' = r_id r.
+Proof.
+  intros H. apply raft_apply_conf_change_spec in H.
+  destruct (ConfChange.apply_conf_change _ cc) as [[c' ids']|e].
+  - destruct H as (Hc & Hcs & Hi & Hp & _). exists ids'. subst c'. inversion Hcs; subst.
+    rewrite Hi. repeat split; try reflexivity. exact Hp.
+  - destruct H as [_ H]. discriminate.
+Qed.
+
+(* ------------------------------------------------------------------ *)
+(* reset / become_* : effect on the fields C09 talks about *)
+
+Lemma reset_fields r t r' :
+  reset r t = Ok r' ->
+  r_state r' = r_state r /\ r_pending_conf_index r' = 0 /\ r_log r' = r_log r /\
+  conf_of r' = conf_of r /\ r_id r' = r_id r /\ r_promotable r' = r_promotable r /\
+  r_term r' = t /\ r_msgs r' = r_msgs r /\ r_pre_vote r' = r_pre_vote r.
+Proof.
+  unfold reset. intros H.
+  destruct (N.eqb_spec (r_term r) t) as [Et|Et]; cbn [negb] in H;
+  match type of H with match ?d with _ => _ end = _ => destruct d end;
+    try discriminate; inversion H; subst; cbn; repeat split; reflexivity.
+Qed.
+
+Lemma become_follower_fields r t l r' :
+  become_follower r t l = Ok r' ->
+  r_state r' = Follower /\ r_pending_conf_index r' = 0 /\ r_log r' = set_limit (r_log r) 0 /\
+  conf_of r' = conf_of r /\ r_id r' = r_id r /\ r_promotable r' = r_promotable r /\
+  r_term r' = t /\ r_msgs r' = r_msgs r /\ r_leader_id r' = l.
+Proof.
+  unfold become_follower. intros H. inv_bind H. inversion H; subst. cbn.
+  apply reset_fields in Hx. destruct Hx as (A & B & C0 & D & E & F & G & I & _).
+  rewrite C0. repeat split; assumption.
+Qed.
+
+Lemma same_ents_set_limit l k : same_ents l (set_limit l k).
+Proof. repeat split. Qed.
+
+(* ------------------------------------------------------------------ *)
+(* restore *)
+
+Theorem restore_true_spec r s r' :
+  restore r s = Ok (r', true) ->
+  exists ids,
+    ConfChange.restore empty_tracker (s_cs s) = ROk (conf_of r', ids) /\
+    conf_state_eq (s_cs s) (to_conf_state (conf_of r')) = true /\
+    r_promotable r' = voters_contains (conf_of r') (r_id r') /\ r_id r' = r_id r /\
+    r_state r' = Follower /\ r_state r = Follower.
+Proof.
+  unfold restore. intros H.
+  destruct (s_index s <? committed (r_log r)); [inversion H|].
+  destruct (role_eqb (r_state r) Follower) eqn:Ef; cbn [negb] in H;
+    [|inv_bind H; inversion H].
+  match type of H with (if ?c then _ else _) = _ => destruct c end; [inversion H|].
+  inv_bind H.
+  match type of H with (if ?c then _ else _) = _ => destruct c end; [inv_bind H; inversion H|].
+  inv_bind H.
+  destruct (ConfChange.restore empty_tracker (s_cs s)) as [[c' ids']|e]; [|discriminate].
+  inv_bind H. destruct x1 as [r1 new_cs].
+  destruct (conf_state_eq (s_cs s) new_cs) eqn:Eq; cbn [negb] in H; [|discriminate].
+  destruct (get_pr r1 (r_id r1)); [|discriminate].
+  destruct (next_idx p =? 0); [discriminate|]. inversion H; subst. clear H.
+  pose proof (post_conf_change_spec _ _ _ Hx1) as [_ Hfr].
+  apply promotable_iff_voter in Hx1. destruct Hx1 as (Hp & Hc & Hi & Hcs).
+  change (conf_of (set_conf_prs _ c' _)) with c' in *.
+  change (r_id (set_conf_prs _ c' _)) with (r_id r) in *.
+  exists ids'. cbn. fold (conf_of r1).
+  rewrite Hc. split; [reflexivity|]. split; [rewrite <- Hcs; exact Eq|].
+  split; [rewrite Hp, Hc, Hi; reflexivity|]. split; [exact Hi|].
+  destruct Hfr as (Hs & _). cbn in Hs.
+  destruct (r_state r); try discriminate. split; [exact Hs|reflexivity].
+Qed.
+
+(* a refused snapshot leaves configuration and promotable alone *)
+Theorem restore_false_conf r s r' :
+  restore r s = Ok (r', false) ->
+  conf_of r' = conf_of r /\ r_promotable r' = r_promotable r /\ r_id r' = r_id r.
+Proof.
+  unfold restore. intros H.
+  destruct (s_index s <? committed (r_log r)); [inversion H; subst; auto|].
+  destruct (role_eqb (r_state r) Follower); cbn [negb] in H.
+  2:{ inv_bind H. inversion H; subst. apply become_follower_fields in Hx. intuition. }
+  match type of H with (if ?c then _ else _) = _ => destruct c end; [inversion H; subst; auto|].
+  inv_bind H.
+  match type of H with (if ?c then _ else _) = _ => destruct c end.
+  { inv_bind H. inversion H; subst. auto. }
+  inv_bind H.
+  destruct (ConfChange.restore empty_tracker (s_cs s)) as [[c' ids']|e]; [|discriminate].
+  inv_bind H. destruct x1 as [r1 new_cs].
+  destruct (negb (conf_state_eq (s_cs s) new_cs)); [discriminate|].
+  destruct (get_pr r1 (r_id r1)); [|discriminate].
+  destruct (next_idx p =? 0); [discriminate|]. inversion H.
+Qed.
